@@ -295,6 +295,8 @@ struct Obs {
     markers: Vec<((usize, usize), (usize, usize), (usize, usize), (usize, usize), usize, usize)>,
     /// source ranges of the templated slices with their length change (templated len - source len)
     shifts: Vec<(usize, usize, i64)>,
+    /// non-leaf segments: (source, templated) ranges of the children, (source, templated) range of the parent
+    parents: Vec<(Vec<((usize, usize), (usize, usize))>, ((usize, usize), (usize, usize)))>,
 }
 
 fn observe(it: &VItem) -> Obs {
@@ -309,9 +311,22 @@ fn observe(it: &VItem) -> Obs {
     let tables = Tables::default();
     let parsed = linter.parse_string(&tables, &it.sql, None).unwrap();
     let mut markers = vec![];
+    let mut parents = vec![];
     if let Some(tree) = &parsed.tree {
         let mut all = tree.recursive_crawl_all(false);
         all.push(tree.clone());
+        for seg in &all {
+            let kids: Vec<_> = seg
+                .segments()
+                .iter()
+                .filter_map(|c| c.get_position_marker().map(|pm| ((pm.source_slice.start, pm.source_slice.end), (pm.templated_slice.start, pm.templated_slice.end))))
+                .collect();
+            if let (false, Some(pm)) = (kids.is_empty(), seg.get_position_marker()) {
+                parents.push((kids, ((pm.source_slice.start, pm.source_slice.end), (pm.templated_slice.start, pm.templated_slice.end))));
+            }
+        }
+        parents.sort();
+        parents.dedup();
         for seg in all {
             if let Some(pm) = seg.get_position_marker() {
                 markers.push((
@@ -333,7 +348,7 @@ fn observe(it: &VItem) -> Obs {
         .filter(|s| s.slice_type == "templated")
         .map(|s| (s.source_slice.start, s.source_slice.end, s.templated_slice.len() as i64 - s.source_slice.len() as i64))
         .collect();
-    Obs { source: tf.source_str.clone(), templated: tf.templated().to_string(), viols, markers, shifts }
+    Obs { source: tf.source_str.clone(), templated: tf.templated().to_string(), viols, markers, shifts, parents }
 }
 
 fn g_range(r: (usize, usize)) -> String {
@@ -426,6 +441,33 @@ fn run_viol(it: &VItem, out: &mut Buf) {
     let msample = json!({"input":input,"source":o.source,"templated":o.templated,"n_markers":o.markers.len(),
         "markers":ms.iter().map(|m| json!([m.0.0,m.0.1,m.1.0,m.1.1,m.2.0,m.2.1,m.3.0,m.3.1])).collect::<Vec<_>>()});
     out.case("marker", it.cls, ms.iter().any(|m| m.0.0 != m.1.0), margs, mexp, msample);
+
+    // hypothesis of C08_parent_range (it is C15's conclusion): the ranges of the leaves lie in the file
+    let leaves_ok = o.markers.iter().all(|m| m.0.0 <= m.0.1 && m.0.1 <= src.len());
+    out.hyp("H_ranges_in_file", "blocking", leaves_ok, input.clone());
+
+    // parent markers = from_child_markers of the children
+    out.count("parents", o.parents.len());
+    let mut pbad = None;
+    for (kids, par) in &o.parents {
+        let want = (
+            (kids.iter().map(|k| k.0.0).min().unwrap(), kids.iter().map(|k| k.0.1).max().unwrap()),
+            (kids.iter().map(|k| k.1.0).min().unwrap(), kids.iter().map(|k| k.1.1).max().unwrap()),
+        );
+        if want != *par && pbad.is_none() {
+            pbad = Some(format!("parent marker {:?} but min/max over its {} children is {:?}", par, kids.len(), want));
+        }
+    }
+    out.direct("parents", pbad.is_none(), "c08-parent-marker", pbad.as_deref().unwrap_or(""), input.clone());
+    let pstep = o.parents.len().div_ceil(8).max(1);
+    let ps: Vec<_> = o.parents.iter().skip(pstep - 1).step_by(pstep).collect();
+    if !ps.is_empty() {
+        let g_m = |m: &((usize, usize), (usize, usize))| g_tuple(&[g_range(m.0), g_range(m.1)]);
+        let pargs = g_list(ps.iter().map(|(kids, _)| g_list(kids.iter().map(g_m))));
+        let pexp = g_list(ps.iter().map(|(_, par)| g_m(par)));
+        let psample = json!({"input":input,"parents":ps.iter().map(|(k, p)| json!({"children":k.len(),"parent":[p.0.0,p.0.1,p.1.0,p.1.1]})).collect::<Vec<_>>()});
+        out.case("parent", it.cls, ps.iter().any(|(k, _)| k.len() > 1), pargs, pexp, psample);
+    }
 }
 
 fn gen_viol(rng: &mut Rng, cls: &'static str, templated: bool) -> VItem {
